@@ -123,7 +123,10 @@ func init() {
 		return ro.Scan(func(acc, x int) int { b.hit("reduce"); return acc + x }, 100)
 	})
 	opEntry("ScanWithContext", 0, scanModel(sum), func(b *B) op {
-		return ro.ScanWithContext(func(ctx context.Context, acc, x int) (context.Context, int) { b.hit("reduce"); return Mid(ctx), acc + x }, 100)
+		return ro.ScanWithContext(func(ctx context.Context, acc, x int) (context.Context, int) {
+			b.hit("reduce")
+			return Mid(ctx), acc + x
+		}, 100)
 	})
 	opEntry("ScanI", 0, scanModel(sumI), func(b *B) op {
 		return ro.ScanI(func(acc, x int, i int64) int { b.hit("reduce"); return sumI(acc, x, int(i)) }, 100)
@@ -147,7 +150,10 @@ func init() {
 		return ro.Reduce(func(acc, x int) int { b.hit("reduce"); return acc + x }, 100)
 	})
 	opEntry("ReduceWithContext", Stores|AggCtx, redModel(sum), func(b *B) op {
-		return ro.ReduceWithContext(func(ctx context.Context, acc, x int) (context.Context, int) { b.hit("reduce"); return Mid(ctx), acc + x }, 100)
+		return ro.ReduceWithContext(func(ctx context.Context, acc, x int) (context.Context, int) {
+			b.hit("reduce")
+			return Mid(ctx), acc + x
+		}, 100)
 	})
 	opEntry("ReduceI", Stores|AggCtx, redModel(sumI), func(b *B) op {
 		return ro.ReduceI(func(acc, x int, i int64) int { b.hit("reduce"); return sumI(acc, x, int(i)) }, 100)
@@ -829,7 +835,9 @@ func init() {
 		return out, Term{}
 	}), func(b *B) ro.Observable[ro.Notification[int]] { return ro.Materialize[int]()(b.S(0)) })
 	opEntry("Materialize+Dematerialize", 0, ident, func(b *B) op {
-		return func(s ro.Observable[int]) ro.Observable[int] { return ro.Dematerialize[int]()(ro.Materialize[int]()(s)) }
+		return func(s ro.Observable[int]) ro.Observable[int] {
+			return ro.Dematerialize[int]()(ro.Materialize[int]()(s))
+		}
 	}, "Materialize", "Dematerialize")
 	bEntry("TimeInterval", NonDet, nil, func(b *B) ro.Observable[int] {
 		return ro.Map(func(v ro.IntervalValue[int]) int { return v.Value })(ro.TimeInterval[int]()(b.S(0)))
@@ -910,7 +918,9 @@ func init() {
 	}, "NewObservableWithConcurrencyMode", "NewObservable", "NewSafeObservable", "NewUnsafeObservable", "NewEventuallySafeObservable")
 }
 
-type chanPipe struct{ obs ro.Observable[<-chan ro.Notification[int]] }
+type chanPipe struct {
+	obs ro.Observable[<-chan ro.Notification[int]]
+}
 
 func (p chanPipe) Counted() Pipeline { return P(ro.Count[<-chan ro.Notification[int]]()(p.obs)) }
 
